@@ -16,7 +16,9 @@ def check(chk):
     chk.rule('C40.unique', 'graphson_type tags are unique within each deserializer table')
     chk.rule('C40.value', 'GraphSON2Serializer.serialize attaches "@value" for every payload that is not None; the reader looks the tag up and hands "@value" to the TypeIO')
     chk.rule('C40.pair', 'a TypeIO with its own serialize that appears in a deserializer table has its own deserialize')
+    chk.rule('C40.duration', 'DurationTypeIO.serialize: the sub-second part (microseconds / 1e6) is added to an integer number of seconds (int-kind dataflow); the text format has no exponent form and the reader accepts what the writer can emit (sign of the day count)')
     m = chk.repo.mod(GS)
+    _duration_rule(chk, m)
     classes = dict((q, c) for q, c in m.classes() if '.' not in q)
 
     def attr(cname, name):
@@ -149,3 +151,72 @@ def _bases(classes, t):
         out.append(nxt[0])
         c = classes.get(nxt[0])
     return out
+
+
+INT, FLOAT, UNK = 'int', 'float', '?'
+
+
+def _kind(e, env):
+    """numeric kind of an expression over {int, float}"""
+    if isinstance(e, ast.Constant):
+        return INT if isinstance(e.value, int) and not isinstance(e.value, bool) else FLOAT if isinstance(e.value, float) else UNK
+    if isinstance(e, ast.Name):
+        return env.get(e.id, UNK)
+    if isinstance(e, ast.Attribute):
+        if e.attr in ('days', 'seconds', 'microseconds'):
+            return INT
+        if e.attr.startswith('_seconds_in_'):
+            return INT
+        return UNK
+    if isinstance(e, ast.Call):
+        f = src(e.func)
+        if f == 'int':
+            return INT
+        if f == 'float' or f.endswith('.total_seconds'):
+            return FLOAT
+        if f in ('abs', 'round') and e.args:
+            return _kind(e.args[0], env)
+        return UNK
+    if isinstance(e, ast.BinOp):
+        if isinstance(e.op, ast.Div):
+            return FLOAT
+        a, b = _kind(e.left, env), _kind(e.right, env)
+        if FLOAT in (a, b):
+            return FLOAT
+        return INT if a == b == INT else UNK
+    if isinstance(e, ast.UnaryOp):
+        return _kind(e.operand, env)
+    return UNK
+
+
+def _duration_rule(chk, mod):
+    f = mod.func('DurationTypeIO.serialize')
+    env = {}
+    found = 0
+    for st in f.body:
+        if isinstance(st, ast.Assign):
+            v = st.value
+            t = st.targets[0]
+            if isinstance(v, ast.Call) and src(v.func) == 'divmod' and isinstance(t, ast.Tuple) and len(t.elts) == 2:
+                k = FLOAT if FLOAT in (_kind(v.args[0], env), _kind(v.args[1], env)) else (INT if _kind(v.args[0], env) == _kind(v.args[1], env) == INT else UNK)
+                for e in t.elts:
+                    env[src(e)] = k
+            elif isinstance(t, ast.Name):
+                env[t.id] = _kind(v, env)
+        elif isinstance(st, ast.AugAssign) and isinstance(st.op, ast.Add) and 'microseconds' in src(st.value):
+            found += 1
+            k = env.get(src(st.target), UNK)
+            chk.judge(k == INT, 'C40.duration', st, '%s is a whole number of seconds when the microseconds are added' % src(st.target),
+                      'the fraction of a second is added to `%s`, which already is a %s value derived from total_seconds(): the sub-second part is counted twice (1.25 s is written as 1.5 s)' % (src(st.target), k))
+            env[src(st.target)] = FLOAT
+    if found != 1:
+        raise AnalysisError('DurationTypeIO.serialize: the `+= value.microseconds / 1e6` step was not found')
+    cls = mod.cls('DurationTypeIO')
+    fmt = [st for st in cls.body if isinstance(st, ast.Assign) and src(st.targets[0]) == '_duration_format']
+    rx = [st for st in cls.body if isinstance(st, ast.Assign) and src(st.targets[0]) == '_duration_regex']
+    ok = len(fmt) == 1 and isinstance(fmt[0].value, ast.Constant) and '{seconds:f}' in fmt[0].value.value
+    chk.judge(ok, 'C40.duration', fmt[0] if fmt else cls, 'seconds are printed in fixed-point notation (a float below 1e-4 would otherwise print with an exponent the reader rejects)',
+              'seconds are printed with the default float format: durations below 100 microseconds become e.g. 1e-06S, which the reader\'s pattern rejects')
+    pat = rx[0].value.args[0].value if rx and isinstance(rx[0].value, ast.Call) and rx[0].value.args and isinstance(rx[0].value.args[0], ast.Constant) else ''
+    chk.judge('(?P<days>-?' in pat, 'C40.duration', rx[0] if rx else cls, 'the reader accepts a negative day count (timedelta normalises a negative duration to negative days)',
+              'the writer emits a negative day count for negative durations but the reader\'s pattern only accepts digits')
